@@ -15,6 +15,7 @@ import (
 
 	"verif/internal/engine"
 	"verif/internal/gen"
+	"verif/internal/oracle/codec"
 	"verif/internal/oracle/rg"
 )
 
@@ -30,12 +31,16 @@ func init() {
 			"INDEPENDENCE of several results: MulticodeDecodeMultiple (all streams of 2 / 3 records over 9 small graphs incl. n = 0, 1, seeded streams of 2..5 records) and source + Copy + InducedSubgraph copies of one graph: one value is edited (AddVertex, RemoveVertex, edge edits, Contract, SplitEdge), all values are re-read against their own models after every step. " +
 			"FREEDOMS OF THE FORMATS AND OF THE REPRESENTATIONS (variants.go), for every input graph of the per-graph workload: Sparse6Decode is also fed strings of two independent harness-side writers (codec.Sparse6Alt and the c06 writer, each string certified by the independent reader codec.Sparse6Scan) with the pairs of a vertex in any order, pairs repeated next to and apart from their first occurrence, loop pairs, every way of moving to the next vertex, moves to vertices without pairs, pairs behind a vertex number >= n and the optional header (the result must be the simple graph of the string); MulticodeDecode / MulticodeDecodeMultiple records with the neighbour lists in any order inside a larger buffer; Graph6Decode with the optional header; NewDense with edge bytes 2..255 and NewSparse / PruferDecode with slices that have spare capacity (re-read after the caller reused its buffer). " +
 			"EVERY TRANSFORMATION (ComplementDense, Complement, LineGraphDense, InducedSubgraph view and method, SplitEdge, Contract) also gets its argument as rg.DenseVariant / rg.SparseVariant (edge bytes 1..255, dirty spare capacity behind every slice: representation dense-variant / sparse-variant), as a value the library itself made from such inputs (made-dense: NewDense(bytes 1..255), Copy / ComplementDense / InducedSubgraph of a DenseVariant, MulticodeDecode(free order); made-sparse: NewSparse(spare capacity), Sparse6Decode(free-form string), Copy / InducedSubgraph of a SparseVariant) and as a live view over a variant; quick: one of these four representations per graph (a function of the graph) with a few vertex lists / pairs, thorough: all four with all lists / pairs. The same 11 kinds of values are start values of the Contract / SplitEdge chains (where chains run from every start value: all in thorough, one in rotation in quick), of the edit chains under live views and of the copies-of-one-graph workload. " +
+			"DECODER INPUT FORMS x SIZE RANGES (thresholds.go): Graph6Decode and Sparse6Decode get, for graphs on n = 0..5, 8, 9, 16, 17, 31..33, 61..66, 100, 126..130, 191..193, 255..257, 300 vertices (dense, sparse, last vertices isolated, complete, edgeless; read through all ordered pairs) and on 1000 and 4227 vertices (thorough: ten sizes around 2048 / 4096), every string of the independent writers (graph6: codec.Graph6 certified by codec.Graph6Parse; sparse6: codec.Sparse6, the c06 writer, codec.Sparse6Alt, the c06 free-form writer, each certified by codec.Sparse6Scan) WITHOUT AND WITH the optional header, i.e. header x 1-byte / 4-byte form of n (also n >= 4096: all three size bytes used); Sparse6Decode also on 4095..300000 vertices (thorough: up to 2^21+1) with a few hundred edges: header x 4-byte / 8-byte form of n (n >= 258048, n >= 262144), both sides of the sizes where k grows. The result must be the encoded graph; values on more than 300 vertices are read through N, M, Degrees, Neighbours of every vertex and IsEdge on the diagonal, on every edge in both orders and on 50000 sampled pairs. Strings whose size field is longer than n needs (not defined by formats.txt) are decoded, too: only well-formedness of a returned graph is judged, what is returned is recorded. " +
+			"PARAMETERS BEYOND A MACHINE WORD / A BYTE (thresholds.go): every named family, NewDense / NewSparse(n, nil), RandomGraph, RandomTree, PruferDecode on 63..66, 127..130 (most: and 255..257) vertices / elements: KneserGraph and BipartiteKneserGraph on ground sets of 63..66 and 127..130 elements with k = 0, 1, n-1, n, KneserGraph(64, 2) and (65, 2) (thorough: n = 63..80 with k = 2, (65, 63), BipartiteKneserGraph(64..66, 2) and (65, 63)) against definitions evaluated on element lists (no word masks), hypercubes up to dimension 10 (thorough 12), folded hypercubes up to 11 (13), complete multipartite graphs with parts of 63..256 vertices and with 65 / 129 parts, rook graphs with 63..132 squares (incl. 1 x 64, 65 x 1), flower snarks on 60..132 vertices, circulants on 63..257 vertices with differences 63, 64, 65, -64, n+64, circulant bipartite graphs with sides of 63..200 vertices, generalised Petersen graphs with n = 32..129, friendship graphs on 63..257 vertices; the whole per-graph pipeline (constructors from slices, decoders, free-form inputs, every transformation in every representation) on sparse graphs with 63, 64, 65 and 129 vertices (thorough: all of 63..66, 127..130, 255..257). " +
 			"non-trivial = judged value with n >= 3 and m >= 1; distinct = hash of (API, representation, concrete input)",
 		Assumptions: []string{
 			"oracle: rg.G bit matrix + definitions in ref.go written from the documentation strings / textbook definitions (self-checked against published counts and automorphism group orders)",
 			"parameters outside the documented domain are not called: Cycle n < 3, GeneralisedPetersenGraph k = 0, FlowerSnark even n or n = 1, RandomTree n < 2, CirculantGraph n = 0, CirculantBipartiteGraph m = 0 with differences, negative sizes, probabilities outside [0,1]",
 			"input graphs for the transformations are built by filling the exported struct fields directly (rg.Dense / rg.Sparse / rg.DenseVariant / rg.SparseVariant); AddEdge / RemoveEdge on those (used to update the graph under a live view) belong to C05; a library-made argument (made-dense / made-sparse) is used only if it conforms to its model (the constructor itself is judged separately)",
 			"a sparse6 string with repeated pairs or loop pairs (a multigraph in formats.txt) must decode to its underlying simple graph: the result type is a simple graph, the property demands loop-freeness and a pair {x,v} says that x and v are adjacent",
+			"decoder inputs whose size field is longer than the size needs (a small n in the 4-byte / 8-byte form) are not graph6 / sparse6 strings by formats.txt: only the well-formedness of a returned graph is judged; the 8-byte form of graph6 with a size that needs it (n >= 258048: 5.5 GB of edge bits) and sparse6 with n >= 2^24 are not run",
+			"values with more than 300 vertices returned by the decoders are not read through all ordered pairs: IsEdge is asked about the diagonal, every edge of the encoded graph in both orders and 50000 sampled pairs; Neighbours is read for every vertex and must be equal to the encoded graph",
 			"the numbering is taken as documented for CompletePartiteGraph (parts consecutive), KneserGraph (colex), CirculantGraph, CirculantBipartiteGraph (a_i = i, b_j = n+j), GeneralisedPetersenGraph (u_i = i, v_i = n+i); for every other family a differently numbered isomorphic graph is accepted",
 		},
 		Run:            run,
@@ -74,6 +79,23 @@ func init() {
 			"input views: over a graph in a representation variant",
 			"chains from a start value in a representation variant or made from a free-form input|dense", "chains from a start value in a representation variant or made from a free-form input|sparse",
 			"edit chains under live views of a graph in a representation variant or made from a free-form input|dense", "edit chains under live views of a graph in a representation variant or made from a free-form input|sparse",
+			// decoder input forms x size ranges (thresholds.go)
+			"forms:Graph6Decode|no header|1-byte size", "forms:Graph6Decode|header|1-byte size", "forms:Graph6Decode|no header|4-byte size", "forms:Graph6Decode|header|4-byte size",
+			"forms:Graph6Decode|no header|4-byte size with n >= 4096 (all three size bytes used)", "forms:Graph6Decode|header|4-byte size with n >= 4096 (all three size bytes used)",
+			"forms:Sparse6Decode|no header|1-byte size", "forms:Sparse6Decode|header|1-byte size", "forms:Sparse6Decode|no header|4-byte size", "forms:Sparse6Decode|header|4-byte size",
+			"forms:Sparse6Decode|no header|8-byte size", "forms:Sparse6Decode|header|8-byte size",
+			"forms:Sparse6Decode|no header|4-byte size with n >= 4096 (all three size bytes used)", "forms:Sparse6Decode|header|4-byte size with n >= 4096 (all three size bytes used)",
+			"forms:Sparse6Decode|no header|8-byte size with n >= 262144", "forms:Sparse6Decode|header|8-byte size with n >= 262144",
+			"forms:Graph6Decode|the empty string",
+			"judged:large values read through N, M, Degrees, Neighbours of every vertex, IsEdge on the diagonal, on every edge in both orders and on sampled pairs",
+			// parameters beyond a machine word / a byte (thresholds.go)
+			"KneserGraph on a ground set of more than 64 elements", "KneserGraph on a ground set of more than 64 elements with k >= 2", "BipartiteKneserGraph on a ground set of more than 64 elements",
+			"family_cases on more than 64 vertices:NewDense(nil)", "family_cases on more than 64 vertices:NewSparse(nil)", "family_cases on more than 64 vertices:CompleteGraph", "family_cases on more than 64 vertices:Path",
+			"family_cases on more than 64 vertices:Cycle", "family_cases on more than 64 vertices:Star", "family_cases on more than 64 vertices:CompletePartiteGraph", "family_cases on more than 64 vertices:RookGraph",
+			"family_cases on more than 64 vertices:FlowerSnark", "family_cases on more than 64 vertices:HypercubeGraph", "family_cases on more than 64 vertices:FoldedHypercubeGraph", "family_cases on more than 64 vertices:KneserGraph",
+			"family_cases on more than 64 vertices:BipartiteKneserGraph", "family_cases on more than 64 vertices:CirculantGraph", "family_cases on more than 64 vertices:CirculantBipartiteGraph",
+			"family_cases on more than 64 vertices:GeneralisedPetersenGraph", "family_cases on more than 64 vertices:FriendshipGraph", "family_cases on more than 64 vertices:RandomGraph",
+			"per-graph pipeline (constructors from slices, decoders, every transformation) on a graph with 63 or more vertices",
 		},
 	})
 }
@@ -146,7 +168,7 @@ func ints(v ...int) string {
 // unless the documentation fixes the numbering).  multiUnit: the grid of this
 // family is spread over several units, so the key carries no witness (the
 // supervisor keeps the witness of the first unit).
-func (r *runner) family(name, params string, multiUnit, docNumbering bool, build func() graph.Graph, ref func() *rg.G) {
+func (r *runner) family(name, params string, multiUnit, docNumbering bool, build func() graph.Graph, ref func() *rg.G) (held bool) {
 	c := r.c
 	caseKey := name + "(" + params + ")"
 	witness := params
@@ -158,35 +180,41 @@ func (r *runner) family(name, params string, multiUnit, docNumbering bool, build
 	if pi := c.Call(caseKey, func() { h = build() }); pi != nil {
 		c.Eval(1)
 		r.fail(name, "panic@"+engine.SiteNoLine(pi.Site), witness, detail, pi.String(), "a graph (parameters are inside the documented domain)")
-		return
+		return false
 	}
 	s := r.check(name, caseKey, witness, "", detail, h, nil)
 	if s == nil {
-		return
+		return false
 	}
 	own := s.graph()
 	want := ref()
 	c.Obs("family_cases:"+name, 1)
 	if own.N != want.N {
 		r.fail(name, "N", witness, detail, fmt.Sprintf("N()=%d", own.N), fmt.Sprintf("%d vertices", want.N))
-		return
+		return false
+	}
+	if want.N > 64 {
+		// beyond the point where a vertex set / a row of the adjacency fits into one machine word
+		c.Obs("family_cases on more than 64 vertices:"+name, 1)
 	}
 	if own.Equal(want) {
 		c.Obs("families_equal_to_reference_numbering", 1)
-		return
+		return true
 	}
 	switch isoVerdict(own, want) {
 	case 1:
 		if docNumbering {
 			r.fail(name, "numbering", witness, detail, brief(own), "documented numbering: "+brief(want))
-			return
+			return false
 		}
 		c.Obs("isomorphic_to_reference_but_numbered_differently:"+name, 1)
+		return true
 	case 0:
 		r.fail(name, "edges", witness, detail, brief(own), "a graph isomorphic to "+brief(want))
 	default:
-		c.Inconclusive(fmt.Sprintf("%s: edge set differs from the reference numbering and the isomorphism oracle is not run on %d vertices", caseKey, own.N))
+		c.Inconclusive(fmt.Sprintf("%s: edge set differs from the reference numbering, the cheap invariants agree and the budgeted isomorphism search did not decide (%d vertices)", caseKey, own.N))
 	}
+	return false
 }
 
 // ---------------------------------------------------------------------------
@@ -393,74 +421,85 @@ func familyUnits(c *engine.Ctx) []unit {
 	})
 	// RandomGraph: extremes, determinism, well-formedness
 	add("RandomGraph", func(r *runner) {
-		c := r.c
 		for n := 0; n <= pick(40, 80); n++ {
-			for si, seed := range []int64{0, 1, -7, 1 << 40} {
-				n, seed := n, seed
-				r.family("RandomGraph", fmt.Sprintf("%d,p=0,seed=%d", n, seed), false, true, func() graph.Graph { return graph.RandomGraph(n, 0, seed) }, func() *rg.G { return rg.New(n) })
-				r.family("RandomGraph", fmt.Sprintf("%d,p=1,seed=%d", n, seed), false, true, func() graph.Graph { return graph.RandomGraph(n, 1, seed) }, func() *rg.G { return refComplete(n) })
-				for _, p := range []float64{0.1, 0.5, 0.9} {
-					p := p
-					caseKey := fmt.Sprintf("RandomGraph(%d,p=%v,seed=%d)", n, p, seed)
-					witness := fmt.Sprintf("%d,p=%v,seed=%d", n, p, seed)
-					detail := map[string]interface{}{"api": "RandomGraph", "n": n, "p": p, "seed": seed}
-					var h1, h2 graph.Graph
-					if pi := c.Call(caseKey, func() { h1 = graph.RandomGraph(n, p, seed); h2 = graph.RandomGraph(n, p, seed) }); pi != nil {
-						c.Eval(1)
-						r.fail("RandomGraph", "panic@"+engine.SiteNoLine(pi.Site), witness, detail, pi.String(), "a graph")
-						continue
-					}
-					s1 := r.check("RandomGraph", caseKey, witness, "", detail, h1, nil)
-					if s1 == nil {
-						continue
-					}
-					s2 := r.check("RandomGraph", caseKey+"#2", witness, "second-call:", detail, h2, s1.graph())
-					if s2 == nil {
-						continue
-					}
-					c.Obs("RandomGraph_same_seed_same_graph", 1)
-					if si == 0 && n >= 6 {
-						m := s1.m
-						all := n * (n - 1) / 2
-						if m > 0 && m < all {
-							c.Obs("RandomGraph_0<p<1_gave_neither_empty_nor_complete", 1)
-						}
-					}
-				}
-			}
+			r.randomGraphCases(n)
 		}
 	})
 	add("RandomTree", func(r *runner) {
-		c := r.c
 		for n := 2; n <= pick(40, 80); n++ {
-			for _, seed := range []int64{0, 1, 2, -7, 1 << 40} {
-				n, seed := n, seed
-				caseKey := fmt.Sprintf("RandomTree(%d,seed=%d)", n, seed)
-				witness := fmt.Sprintf("%d,seed=%d", n, seed)
-				detail := map[string]interface{}{"api": "RandomTree", "n": n, "seed": seed}
-				var h1, h2 graph.Graph
-				if pi := c.Call(caseKey, func() { h1 = graph.RandomTree(n, seed); h2 = graph.RandomTree(n, seed) }); pi != nil {
-					c.Eval(1)
-					r.fail("RandomTree", "panic@"+engine.SiteNoLine(pi.Site), witness, detail, pi.String(), "a tree")
-					continue
-				}
-				s1 := r.check("RandomTree", caseKey, witness, "", detail, h1, nil)
-				if s1 == nil {
-					continue
-				}
-				t := s1.graph()
-				if t.N != n || !isTree(t) {
-					r.fail("RandomTree", "not-a-tree", witness, detail, brief(t), fmt.Sprintf("a tree on %d vertices", n))
-					continue
-				}
-				if r.check("RandomTree", caseKey+"#2", witness, "second-call:", detail, h2, t) != nil {
-					c.Obs("RandomTree_same_seed_same_tree", 1)
+			r.randomTreeCases(n)
+		}
+		r.c.Obs("outside_domain_not_called:RandomTree(n<2)", 2)
+	})
+	return us
+}
+
+// randomGraphCases: RandomGraph(n, p, seed) for the extremes p = 0 / 1 (the
+// edgeless / the complete graph), determinism in the seed and well-formedness.
+func (r *runner) randomGraphCases(n int) {
+	c := r.c
+	for si, seed := range []int64{0, 1, -7, 1 << 40} {
+		n, seed := n, seed
+		r.family("RandomGraph", fmt.Sprintf("%d,p=0,seed=%d", n, seed), false, true, func() graph.Graph { return graph.RandomGraph(n, 0, seed) }, func() *rg.G { return rg.New(n) })
+		r.family("RandomGraph", fmt.Sprintf("%d,p=1,seed=%d", n, seed), false, true, func() graph.Graph { return graph.RandomGraph(n, 1, seed) }, func() *rg.G { return refComplete(n) })
+		for _, p := range []float64{0.1, 0.5, 0.9} {
+			p := p
+			caseKey := fmt.Sprintf("RandomGraph(%d,p=%v,seed=%d)", n, p, seed)
+			witness := fmt.Sprintf("%d,p=%v,seed=%d", n, p, seed)
+			detail := map[string]interface{}{"api": "RandomGraph", "n": n, "p": p, "seed": seed}
+			var h1, h2 graph.Graph
+			if pi := c.Call(caseKey, func() { h1 = graph.RandomGraph(n, p, seed); h2 = graph.RandomGraph(n, p, seed) }); pi != nil {
+				c.Eval(1)
+				r.fail("RandomGraph", "panic@"+engine.SiteNoLine(pi.Site), witness, detail, pi.String(), "a graph")
+				continue
+			}
+			s1 := r.check("RandomGraph", caseKey, witness, "", detail, h1, nil)
+			if s1 == nil {
+				continue
+			}
+			s2 := r.check("RandomGraph", caseKey+"#2", witness, "second-call:", detail, h2, s1.graph())
+			if s2 == nil {
+				continue
+			}
+			c.Obs("RandomGraph_same_seed_same_graph", 1)
+			if si == 0 && n >= 6 {
+				m := s1.m
+				all := n * (n - 1) / 2
+				if m > 0 && m < all {
+					c.Obs("RandomGraph_0<p<1_gave_neither_empty_nor_complete", 1)
 				}
 			}
 		}
-		c.Obs("outside_domain_not_called:RandomTree(n<2)", 2)
-	})
-	return us
+	}
+}
+
+// randomTreeCases: RandomTree(n, seed), n >= 2, is a tree and a function of the seed.
+func (r *runner) randomTreeCases(n int) {
+	c := r.c
+	for _, seed := range []int64{0, 1, 2, -7, 1 << 40} {
+		n, seed := n, seed
+		caseKey := fmt.Sprintf("RandomTree(%d,seed=%d)", n, seed)
+		witness := fmt.Sprintf("%d,seed=%d", n, seed)
+		detail := map[string]interface{}{"api": "RandomTree", "n": n, "seed": seed}
+		var h1, h2 graph.Graph
+		if pi := c.Call(caseKey, func() { h1 = graph.RandomTree(n, seed); h2 = graph.RandomTree(n, seed) }); pi != nil {
+			c.Eval(1)
+			r.fail("RandomTree", "panic@"+engine.SiteNoLine(pi.Site), witness, detail, pi.String(), "a tree")
+			continue
+		}
+		s1 := r.check("RandomTree", caseKey, witness, "", detail, h1, nil)
+		if s1 == nil {
+			continue
+		}
+		t := s1.graph()
+		if t.N != n || !isTree(t) {
+			r.fail("RandomTree", "not-a-tree", witness, detail, brief(t), fmt.Sprintf("a tree on %d vertices", n))
+			continue
+		}
+		if r.check("RandomTree", caseKey+"#2", witness, "second-call:", detail, h2, t) != nil {
+			c.Obs("RandomTree_same_seed_same_tree", 1)
+		}
+	}
 }
 
 // ---------------------------------------------------------------------------
@@ -766,6 +805,12 @@ func (r *runner) newSparse(g *rg.G, id string, rnd *engine.Rng) {
 }
 
 func (r *runner) decoders(g *rg.G, id string) {
+	r.multicode(g, id)
+	r.stringDecoders(g, id)
+}
+
+// multicode: MulticodeDecode of the record written by refMulticode (n <= 255).
+func (r *runner) multicode(g *rg.G, id string) {
 	c := r.c
 	n := g.N
 	if n <= 255 {
@@ -784,8 +829,23 @@ func (r *runner) decoders(g *rg.G, id string) {
 			r.check("MulticodeDecode", caseKey, "", "after-caller-modified-slice:", detail, h, g)
 		}
 	}
-	if n <= 62 {
-		s := g.G6()
+}
+
+// graph6Of is the graph6 string of g: the rg writer for n <= 62, the reference
+// codec (which also writes the 4-byte form of n) above.
+func graph6Of(g *rg.G) string {
+	if g.N <= 62 {
+		return g.G6()
+	}
+	return codec.Graph6(g)
+}
+
+// stringDecoders: Graph6Decode / Sparse6Decode of the plain strings of the harness's writers.
+func (r *runner) stringDecoders(g *rg.G, id string) {
+	c := r.c
+	n := g.N
+	if n <= maxFullN {
+		s := graph6Of(g)
 		caseKey := "Graph6Decode|" + strconv.Quote(s)
 		detail := map[string]interface{}{"api": "Graph6Decode", "graph6": s}
 		var h *graph.DenseGraph
@@ -1297,6 +1357,8 @@ func run(c *engine.Ctx) {
 	us = append(us, graphUnits(c)...)
 	us = append(us, chainUnits(c)...)
 	us = append(us, editUnits(c)...)
+	us = append(us, formUnits(c)...)
+	us = append(us, thresholdUnits(c)...)
 	for _, u := range us {
 		u := u
 		c.Unit(u.name, func() { u.f(r) })
